@@ -91,6 +91,10 @@ func LdRead(r io.Reader, zeroLenAsEOF bool, maxReadBytes uint64) ([]byte, error)
 
 	buf := make([]byte, l)
 	if _, err := io.ReadFull(r, buf); err != nil {
+		if err == io.EOF {
+			// The length prefix promised l > 0 more bytes; ending here is not a clean EOF.
+			err = io.ErrUnexpectedEOF
+		}
 		return nil, err
 	}
 
